@@ -117,7 +117,7 @@ Section New.
       destruct (merge_freqs_ok cf o0 ltac:(lia) Hc) as [mf [Hmf [Hlm Hpm]]]. rewrite Hmf.
       destruct (0 <? length (present mf))%nat.
       + destruct (from_freqs_full mf ltac:(lia) Hpm) as [ht [Hht Hok]]. rewrite Hht.
-        destruct (IH (trees ++ [ht]) (map_insert k (length trees) cmap) Hrest) as [trees' [cmap' [H1 [H2 [H3 H4]]]]].
+        destruct (IH (trees ++ [ht]) (cmap_insert k (length trees) cmap) Hrest) as [trees' [cmap' [H1 [H2 [H3 H4]]]]].
         * apply Forall_app. split; [exact Ht|constructor; [exact Hok|constructor]].
         * apply (map_insert_Forall (fun v => (v < length (trees ++ [ht]))%nat)).
           -- revert Hm. apply Forall_impl. intros p Hp. rewrite app_length. cbn [length]. lia.
@@ -409,7 +409,112 @@ Proof.
     rewrite <- (Hall p' Hp'), <- (Hall q' Hq'). exact Hle.
 Qed.
 
-Print Assumptions ctx_new_wf_proof.
-Print Assumptions ctx_new_roundtrip_proof.
-Print Assumptions hm_of_perm_proof.
-Print Assumptions order2_cut_proof.
+(* ---- the same on the encoder new_order2 returns: its context_map holds exactly the selected contexts ---- *)
+Lemma ctx_bump_keys : forall m k s m', ctx_bump k s m = Some m' ->
+  (In k (map fst m) /\ map fst m' = map fst m) \/ (~ In k (map fst m) /\ map fst m' = map fst m ++ [k]).
+Proof.
+  induction m as [|[k' fr] rest IH]; intros k s m' H; cbn [ctx_bump] in H.
+  - destruct (bump s zeros256); [|discriminate]. injection H as <-. right. split; [intros []|reflexivity].
+  - destruct (N.eqb_spec k' k) as [->|Hne].
+    + destruct (bump s fr); [|discriminate]. injection H as <-. left. split; [now left|reflexivity].
+    + destruct (ctx_bump k s rest) as [r|] eqn:Hr; [|discriminate]. injection H as <-. cbn [map fst].
+      destruct (IH k s r Hr) as [[Hin Heq]|[Hnin Heq]].
+      * left. split; [now right|now rewrite Heq].
+      * right. split; [intros [Hc|Hc]; [congruence|contradiction]|now rewrite Heq].
+Qed.
+Lemma ctx_bump_nodup m k s m' : NoDup (map fst m) -> ctx_bump k s m = Some m' -> NoDup (map fst m').
+Proof.
+  intros Hnd H. destruct (ctx_bump_keys m k s m' H) as [[_ ->]|[Hnin ->]]; [exact Hnd|].
+  apply (Permutation_NoDup (Permutation_cons_append (map fst m) k)). now constructor.
+Qed.
+Lemma ctx2_go_nodup : forall d p2 p1 m m', NoDup (map fst m) -> ctx2_go p2 p1 d m = Some m' -> NoDup (map fst m').
+Proof.
+  induction d as [|s t IH]; intros p2 p1 m m' Hnd H; cbn [ctx2_go] in H.
+  - now injection H as <-.
+  - destruct (ctx_bump (p2 * 256 + p1) (N.to_nat s) m) as [m1|] eqn:H1; [|discriminate].
+    apply (IH p1 s m1 m'); [now apply ctx_bump_nodup in H1|exact H].
+Qed.
+Lemma ctx2_counts_nodup d m : ctx2_counts d = Some m -> NoDup (map fst m).
+Proof.
+  unfold ctx2_counts. destruct d as [|p2 [|p1 t]]; intros H; try (injection H as <-; constructor).
+  apply (ctx2_go_nodup t p2 p1 [] m); [constructor|exact H].
+Qed.
+Lemma NoDup_app_l {A} (a b : list A) : NoDup (a ++ b) -> NoDup a.
+Proof.
+  induction a as [|x a IH]; intros H; [constructor|]. cbn [app] in H. inversion H as [|? ? Hn Hr]; subst.
+  constructor; [|now apply IH]. intros Hc. apply Hn. apply in_or_app. now left.
+Qed.
+Lemma map_insert_keys k v : forall m, ~ In k (map fst m) -> map fst (cmap_insert k v m) = map fst m ++ [k].
+Proof.
+  induction m as [|[k' v'] rest IH]; intros Hn; cbn [cmap_insert]; [reflexivity|].
+  cbn [map fst] in Hn. destruct (N.eqb_spec k' k) as [->|Hne]; [exfalso; apply Hn; now left|].
+  cbn [map fst app]. rewrite IH; [reflexivity|]. intros Hc. apply Hn. now right.
+Qed.
+Lemma build_go_keys heap_of o0 : length o0 = 256%nat -> forall cs trees cmap trees' cmap',
+  cs_ok cs -> NoDup (map fst cmap ++ map fst cs) ->
+  build_go heap_of o0 cs trees cmap = Some (trees', cmap') -> map fst cmap' = map fst cmap ++ map fst cs.
+Proof.
+  intros Ho. induction cs as [|[k cf] rest IH]; intros trees cmap trees' cmap' Hcs Hnd H; cbn [build_go] in H.
+  - injection H as _ <-. cbn [map]. now rewrite app_nil_r.
+  - inversion Hcs as [|? ? [Hl Hc] Hrest]; subst. cbn [snd] in Hl, Hc.
+    destruct (merge_freqs_ok cf o0 ltac:(lia) Hc) as [mf [Hmf [Hlm Hpm]]]. rewrite Hmf in H.
+    destruct (present_go_pos mf Hpm 0) as [Hpl _]. fold (present mf) in Hpl.
+    replace (0 <? length (present mf))%nat with true in H by (symmetry; apply Nat.ltb_lt; lia).
+    destruct (from_freqs heap_of mf) as [ht|]; [|discriminate].
+    cbn [map fst] in Hnd. pose proof (NoDup_remove_2 _ _ _ Hnd) as Hnin.
+    assert (Hk : ~ In k (map fst cmap)) by (intros Hc'; apply Hnin; apply in_or_app; now left).
+    assert (Hnd' : NoDup (map fst (cmap_insert k (length trees) cmap) ++ map fst rest)).
+    { rewrite map_insert_keys by exact Hk. rewrite <- app_assoc. exact Hnd. }
+    rewrite (IH _ _ _ _ Hrest Hnd' H). rewrite map_insert_keys by exact Hk.
+    cbn [map fst]. rewrite <- app_assoc. reflexivity.
+Qed.
+
+Theorem order2_map_proof : forall heap_of hm, heap_any heap_of -> hm_any hm ->
+  forall t, (3 <= length t)%nat -> bytes_ok t -> N.of_nat (length t) * 100 < W32 ->
+  exists e m top rest, ctx_new heap_of hm 2 t = Some e /\ ctx2_counts t = Some m /\
+    NoDup (map fst m) /\ Permutation m (top ++ rest) /\
+    map fst (c_map e) = map fst top /\ length (c_map e) = Nat.min 1024 (length m) /\
+    forall p q, In p top -> In q rest -> sumN (snd q) <= sumN (snd p).
+Proof.
+  intros heap_of hm Hheap Hhm t Hlen Hb Hn.
+  unfold ctx_new. change (2 =? 0) with false. change (2 =? 1) with false. change (2 =? 2) with true. cbv iota.
+  unfold new_order2.
+  replace (length t <? 3)%nat with false by (symmetry; apply Nat.ltb_ge; exact Hlen).
+  destruct (count_bytes_ok t Hb ltac:(lia)) as [c0 [Hc [Hl _]]]. rewrite Hc. cbv zeta.
+  destruct (from_freqs_full heap_of Hheap (fill_ones c0)) as [t0 [Ht0 Hok]];
+    [rewrite fill_ones_len; exact Hl|apply fill_ones_pos|]. rewrite Ht0.
+  destruct (ctx2_counts_ok t Hb ltac:(lia)) as [m [Hm Hinv]]. rewrite Hm.
+  assert (Hinv' : cf_inv (N.of_nat (length t)) (hm m)).
+  { unfold cf_inv. apply (Permutation_Forall (Permutation_sym (Hhm m))). exact Hinv. }
+  destruct (order2_cut_proof (hm m) _ Hinv' ltac:(lia)) as [top [rest [Hs [Hlt [Hp Hcut]]]]]. rewrite Hs.
+  assert (Hnd : NoDup (map fst m)) by (now apply ctx2_counts_nodup with t).
+  assert (Hpm : Permutation m (top ++ rest)) by (rewrite <- Hp; symmetry; apply Hhm).
+  assert (Hndt : NoDup (map fst top)).
+  { apply NoDup_app_l with (map fst rest). rewrite <- map_app.
+    apply (Permutation_NoDup (Permutation_map fst Hpm) Hnd). }
+  assert (Hcs : cs_ok top).
+  { pose proof (cf_inv_cs_ok _ _ Hn Hinv') as Hall. unfold cs_ok in *.
+    rewrite Forall_forall in Hall. apply Forall_forall. intros p Hin. apply Hall.
+    apply (Permutation_in p (Permutation_sym Hp)). apply in_or_app. now left. }
+  assert (Ho : length (fill_ones c0) = 256%nat) by (rewrite fill_ones_len; exact Hl).
+  unfold finish.
+  destruct (build_go_ok heap_of hm Hheap Hhm (fill_ones c0) Ho top [t0] [] Hcs) as [trees [cmap [H1 _]]].
+  { constructor; [exact Hok|constructor]. }
+  { constructor. }
+  rewrite H1. pose proof (build_go_keys heap_of _ Ho top [t0] [] trees cmap Hcs Hndt H1) as Hkeys. cbn [map app] in Hkeys.
+  exists (mkC 2 trees cmap), m, top, rest. cbn [c_map c_trees].
+  split; [reflexivity|]. split; [reflexivity|]. split; [exact Hnd|]. split; [exact Hpm|].
+  split; [exact Hkeys|].
+  assert (Hlc : length cmap = length top) by (rewrite <- (map_length fst cmap), Hkeys; apply map_length).
+  split; [rewrite Hlc, Hlt, (Permutation_length (Hhm m)); reflexivity|exact Hcut].
+Qed.
+
+(* ties: the stable sort keeps 1 before 2, the reversal puts 2 first *)
+Example ex_select_top :
+  select_top [(1, [2; 0]); (2, [1; 1]); (3, [5; 0])] = Some [(3, [5; 0]); (2, [1; 1]); (1, [2; 0])].
+Proof. vm_compute. reflexivity. Qed.
+Example ex_order2_map : exists e m,
+  ctx_new heap_left (hm_of 2 [25185; 24930]) 2 [97; 98; 97; 98; 97; 99] = Some e /\
+  c_map e = [(25185, 1%nat); (24930, 2%nat)] /\
+  ctx2_counts [97; 98; 97; 98; 97; 99] = Some m /\ map (fun p => (fst p, sumN (snd p))) m = [(24930, 2); (25185, 2)].
+Proof. eexists. eexists. split; [vm_compute; reflexivity|]. vm_compute. repeat split; reflexivity. Qed.
